@@ -56,6 +56,73 @@ FIXED = [
 ]
 
 
+def part_b(tier, seed, rng, wd, v, replay):
+    if replay:
+        return {"states": 0, "transitions": 0}
+    out = {"states": 0, "transitions": 0}
+    # L1 => L0 for the halving acquire on the shared bucket
+    for (q, b) in ((2, 2), (1, 3)):
+        mc = vlib.tlc("flow", "TokenBucket", "TokenBucket.cfg", workers=8, timeout=1200,
+                      consts={"Qps": q, "Burst": b, "Asks": "<-AsksSmall", "Halving": "TRUE", "MaxCalls": 5 if tier == "quick" else 6})
+        if mc.violation:
+            raise Infra("TokenBucket.tla (halving) violates %s" % mc.violated())
+        out["states"] += mc.distinct
+        out["transitions"] += mc.generated
+    scs = []
+    sid = 0
+    for (q, b) in ((4, 8), (1, 1), (10, 10), (3, 7)):
+        n = 12 if tier == "quick" else 150
+        gen = vlib.tlc("flow", "TokenBucketGen", "TokenBucketGen.cfg", workers=1, timeout=600, simulate="num=%d" % n, depth=80, tlc_seed=seed + q,
+                       consts={"Qps": q, "Burst": b, "Asks": "<-AsksWide", "Halving": "TRUE", "Horizon": 40000, "MaxCalls": 20})
+        for lg in list({vlib.canon(h): h for h in gen.json_prints("HIST")}.values())[:n]:
+            sid += 1
+            steps = [{"k": "hb", "inst": "i1"}, {"k": "hb", "inst": "i2"}]
+            t = 0
+            for k, c in enumerate(lg):
+                if c["t"] > t:
+                    steps.append({"k": "sleep", "ms": c["t"] - t})
+                    t = c["t"]
+                steps.append({"k": "acquire", "up": "ut", "inst": "i%d" % (1 + k % 2), "tokens": c["ask"], "id": 0})
+            scs.append({"id": sid, "shards": 1, "servers": ["A"], "store": "local", "qps": q, "burst": b,
+                        "upstreams": [{"name": "ut", "type": "tb", "strategy": "globalCount", "max": q, "burst": b}], "steps": steps})
+    binp = os.path.join(wd, "limsrv.test")
+    vlib.go_test_build("./limsrv", binp)
+    traces, crashed = vlib.run_test_driver(binp, scs, wd, timeout=1200, name="tb")
+    sc_by_id = {str(s["id"]): s for s in scs}
+    for sid_, tail in crashed.items():
+        v.violation("tb-crash-%s" % sid_, {"scenario": sc_by_id[sid_], "what": "server process crashed", "stderr_tail": tail})
+    tl = []
+    for sid_, t in traces.items():
+        evs = []
+        for e in t["events"]:
+            if e["k"] != "acquire":
+                continue
+            if "err" in e:
+                v.violation("tb-err-%s" % sid_, {"scenario": sc_by_id[sid_], "event": e, "what": "acquire at the leader failed"})
+                continue
+            grant = e["limit"] if e["accept"] else 0
+            if e["tokens"] < 0 and (e["accept"] or not e.get("rerr")):
+                v.violation("tb-neg-%s" % sid_, {"scenario": sc_by_id[sid_], "event": e, "what": "negative ask not refused"})
+            evs.append({"t": e["now"] - 946684800000, "ask": e["tokens"], "grant": grant})
+        tl.append({"id": int(sid_), "qps": sc_by_id[sid_]["qps"], "burst": sc_by_id[sid_]["burst"], "idle": False, "events": evs})
+    tr_p = os.path.join(wd, "tb.ndjson")
+    vlib.write_ndjson(tr_p, tl)
+    tv = vlib.tlc("flow", "TraceTokens", "TraceTokens.cfg", workers=8, timeout=1200, consts={"TraceFile": '"%s"' % tr_p})
+    by_id = {str(t["id"]): t for t in tl}
+    nrej = 0
+    for l in tv.out.splitlines():
+        if l.startswith('<<"REJECT"'):
+            parts = [x.strip().strip('"') for x in l.strip("<>").split(",")]
+            nrej += 1
+            v.violation("tb-trace-%s" % parts[1], {"scenario": sc_by_id[parts[1]], "grants": by_id[parts[1]], "clause": parts[2],
+                                                    "what": "token grants violate the window bound burst + qps*T / the range 0..ask"})
+    out["states"] += tv.distinct
+    out["transitions"] += tv.generated
+    out.update({"traces": len(tl), "rejected": nrej, "acquires": sum(len(t["events"]) for t in tl),
+                "granted_total": sum(e["grant"] for t in tl for e in t["events"]), "sample": tl[0]["events"][:8] if tl else []})
+    return out
+
+
 def main(tier, replay):
     t0 = time.time()
     seed = vlib.seed()
@@ -132,8 +199,12 @@ def main(tier, replay):
         for tid, line in sorted(rejected.items()):
             v.violation("trace-" + tid, {"trace": by_id[tid], "rejected_at_event": line, "scenario": sc_by_id.get(tid),
                                           "what": "history (or the quiescent accounting) not explainable by the global-count L0"})
+        # ---------------- part B: token bucket through DoAcquire on virtual time ----------------
+        tb = part_b(tier, seed, rng, wd, v, replay)
+        states += tb["states"]
+        trans += tb["transitions"]
         rc = v.finish()
-        cov = {"states": states + tv.distinct, "transitions": trans + tv.generated,
+        cov = {"token_bucket_part": tb, "states": states + tv.distinct, "transitions": trans + tv.generated,
                "traces_validated_against_impl": len(traces) - len(rejected),
                "samples": [traces[0], traces[len(traces) // 2]],
                "evaluations": len(traces), "distinct_nontrivial": len({vlib.canon(t["events"]) for t in traces}),
